@@ -155,7 +155,10 @@ class EdgeOdometry(BaseEdge):
             arr = np.array([float(number) for number in numbers[2:]], dtype=np.float64)
             vertex_ids = [int(numbers[0]), int(numbers[1])]
             estimate = PoseSE3(arr[:3], arr[3:7])
-            estimate.normalize()
+            # Normalize the quaternion but keep its sign: ``q`` and ``-q`` are the same rotation, but the sign of the
+            # rotational part of the error depends on it, and so does chi^2 when the information matrix couples
+            # translation and rotation
+            estimate[3:] /= np.linalg.norm(estimate[3:])
             information = upper_triangular_matrix_to_full_matrix(arr[7:], 6)
             return EdgeOdometry(vertex_ids, information, estimate)
 
